@@ -6,6 +6,8 @@ import itertools
 from typing import Dict, List, Optional, Set
 
 from .. import anchors as A
+from ..canon import canon_copy
+from ..roles import canonical_fallback
 from ..model import AnalysisError, Project, call_name, walk_local
 from ..models import ModelTable, ModelInfo, FieldInfo, union_members
 from ..report import Report
@@ -17,6 +19,10 @@ PYDANTIC_DECORATORS = {"field_validator", "model_validator", "validator", "root_
 # Parameter/configuration classes: validated user configuration, not protocol traffic.  Listed in the
 # evidence; C09 speaks about JSON-RPC messages and MCP payloads.
 NOT_TRAFFIC_PREFIXES = ("chuk_mcp.transports.",)
+
+
+# canonical names the rules below use for the validator's parameters (by position) — whatever the source calls them
+DV_PARAMS = ("name", "value", "expected", "path", "class_module", "original_annotation")
 
 
 def fallback_defs(P: Project):
@@ -49,6 +55,7 @@ def check(P: Project, R: Report) -> None:
     R.rule("R4", "requiredness parity: no field is Optional[...] without a default (required-but-nullable in Pydantic, optional in the fallback)")
     R.rule("R6", "inherited fields: if the fallback validates only a class's own annotations (derived from its source), no protocol model may inherit a typed field from another model class")
     R.rule("R5", "Union[int, str] keeps the JSON type in the fallback: an exact-type pass precedes the ordered coercing attempts, and stripping None from Optional[Union[...]] keeps all remaining members")
+    P = canonical_fallback(P, A.MOD_BASE)  # fallback helpers found by role, then read under canonical names
     T = ModelTable(P)
     R.need(len(T.models) >= 50, f"model table has only {len(T.models)} classes (65 confirmed by hand)")
     R.extra["model_classes"] = len(T.models)
@@ -76,7 +83,7 @@ def check(P: Project, R: Report) -> None:
     R.extra["fallback_hooks"] = sorted(fb_hooks)
     R.extra["hooks_dispatched_by_both"] = sorted(both)
     R.ob("R1", "model_post_init is dispatched by the fallback", "model_post_init" in fb_hooks, f"{base_rel}:{disp.lineno}", f"fallback dispatches {sorted(fb_hooks)}")
-    dv = funcs["_deep_validate"]
+    dv = canon_copy(funcs["_deep_validate"], params=DV_PARAMS, roles={"origin": lambda v: isinstance(v, ast.Call) and call_name(v) == "get_origin"})
     origin_cases = set()
     literal_rejects = False
     for n in walk_local(dv):
